@@ -16,6 +16,9 @@ inductive Rx where
   | dgram (src : Addr) (d : Bytes)
   | recvErr
   | stop
+  /-- a marker the runtime model uses for "the next `k` sends fail" (set when `recv` passes it);
+  the receive path skips it without a `recv` call of its own -/
+  | sf (k : Nat)
 deriving Repr, DecidableEq, Inhabited
 
 structure Backend where
@@ -38,6 +41,7 @@ def getNextRead (b : Backend) : List Rx → Option Nat × Backend × List Rx
   | [] => (none, b, [])
   | .stop :: rest => (none, b, rest)
   | .recvErr :: rest => getNextRead b rest
+  | .sf _ :: rest => getNextRead b rest
   | .dgram a d :: rest =>
     let (buf', n) := recvInto b.buf d
     let b' := { b with buf := buf', lastAddr := a }
